@@ -207,7 +207,27 @@ namespace plan
             t = "0.0 - " + t.substr(1);
           bt += " " + t + ";";
         }
-        if (!m.rr_names.empty() && (use & 1))
+        std::vector<int> gp;
+        for (size_t i = 0; i < m.preds.size(); ++i)
+          if (m.preds[i].cls < 0)
+            gp.push_back(static_cast<int>(i));
+        if (!gp.empty() && (use & 6) == 2)
+        { // the disjunct states a goal on a global predicate, its first parameter (if any) a small constant: the graph
+          // defers such alternatives, and whether they are ever expanded depends on the cost of the others
+          int gi = gp[modn(ua, gp.size())];
+          std::string nm = "g" + std::to_string(m.n_formulas++);
+          std::string args;
+          if (!m.preds[gi].rparams.empty())
+            args = m.preds[gi].rparams[0] + ":" + qtext(mpq_class(modn(ud, 3)));
+          bt += " goal " + nm + " = new " + m.preds[gi].name + "(" + args + ");";
+          auto f = std::make_shared<BodyItem>();
+          f->k = BodyItem::SUBGOAL;
+          f->pred = gi;
+          f->is_fact = false;
+          f->local = nm;
+          items.push_back(f);
+        }
+        else if (!m.rr_names.empty() && (use & 1))
         {
           size_t ri = static_cast<size_t>(modn(use >> 1, m.rr_names.size()));
           static const char *amts[] = {"1", "3/2", "2", "5/2", "4", "1/2"};
